@@ -602,14 +602,17 @@ func (ci *crdIpam) ByKeyAndIPRanges(key string, ipranges [][]nets.IPRange) ([]*F
 	var ipinfos []*FloatingIPInfo
 	if len(ipranges) != 0 {
 		ipinfos = make([]*FloatingIPInfo, len(ipranges))
+		// pickedIPSet is the ips picked for the previous ranges, ranges may overlap and each of them gets its own ip
+		pickedIPSet := sets.NewString()
 		for i, ranges := range ipranges {
 			walkIPRanges(ranges, func(ip net.IP) bool {
 				ipStr := ip.String()
 				fip, ok := ci.allocatedFIPs[ipStr]
-				if !ok || fip.Key != key {
+				if !ok || fip.Key != key || pickedIPSet.Has(ipStr) {
 					return false
 				}
 				ipinfos[i] = ci.toFloatingIPInfo(fip)
+				pickedIPSet.Insert(ipStr)
 				return true
 			})
 		}
